@@ -350,6 +350,10 @@ def _mod_assign(m, name: str):
     return cache[name]
 
 
+class BudgetExhausted(Unsupported):
+    """The step budget ran out: for a rule that sets a small budget on purpose this is the observation 'does not terminate'."""
+
+
 class MiniEval:
     """Interprets methods/functions of the analysed modules over concrete values: literals, arithmetic, %-formatting and
     f-strings, comparisons, subscripts and slices, if/for/while/try/return/raise/del/assert/assignments, nested functions
@@ -691,7 +695,7 @@ class MiniEval:
     def _tick(self):
         self.fuel -= 1
         if self.fuel <= 0:
-            raise Unsupported("evaluation budget exhausted (possible non-termination)")
+            raise BudgetExhausted("evaluation budget exhausted (possible non-termination)")
 
     def store(self, t, v, env):
         if isinstance(t, ast.Name):
